@@ -38,6 +38,9 @@ const (
 )
 
 func runC17(c *Ctx) {
+	if c17CoverageHook != nil {
+		defer c17CoverageHook(c)
+	}
 	c17R1Auth(c)
 	c17RoundTrip(c)
 	c17Policy(c)
@@ -1119,6 +1122,16 @@ func c17R4(c *Ctx) {
 }
 
 var c17Mutants = []Mutant{
+	{Name: "retry-closes-response-on-transport-error", File: "registry/remote/retry/client.go",
+		Old:    "\t\t\tif respErr == nil {\n\t\t\t\tresp.Body.Close()\n\t\t\t}\n\t\t\treturn nil, err",
+		New:    "\t\t\tif respErr != nil {\n\t\t\t\tresp.Body.Close()\n\t\t\t}\n\t\t\treturn nil, err",
+		Expect: "C17.R2.attempt-accounting"},
+	{Name: "retry-after-ignored-when-positive", File: "registry/remote/retry/policy.go",
+		Old: "retryAfter > 0 {", New: "!(retryAfter > 0) {", Expect: "C17.R3.retry-after-honoured"},
+	{Name: "retry-after-read-only-when-empty", File: "registry/remote/retry/policy.go",
+		Old: "v != \"\" {", New: "!(v != \"\") {", Expect: "C17.R3.retry-after-honoured"},
+	{Name: "upload-put-credential-not-reused", File: "registry/remote/repository.go",
+		Old: "\t\treq.Header.Set(\"Authorization\", auth)\n", New: "\t\t_ = auth\n", Expect: "C17.R4.one-shot-body"},
 	{Name: "auth-final-send-no-rewind", File: "registry/remote/auth/client.go",
 		Old:    "\tif err := rewindRequestBody(req); err != nil {\n\t\treturn nil, err\n\t}\n\n\treturn c.send(req)",
 		New:    "\treturn c.send(req)",
